@@ -134,6 +134,7 @@ SCENARIO_BY_OBLIGATION = {
     ("C13", "O13.3/midframe_eof"): ["midframe-eof"],
     ("C13", "O13.6/manifest_keys"): ["manifest-key-flip"],
     ("C13", "O13.7/seq_continuity"): ["clean-truncation"],
+    ("C13", "O13.8/fallback_order"): ["manifest-names-missing-snapshot"],
     ("C01", "O1.5/crash_window"): ["crash-after-unlink"],
     ("C01", "O1.3/periodic_idle"): ["periodic-idle"],
     ("C03", "O3.1/pinned"): ["failed-overwrite", "nan"],
